@@ -46,11 +46,11 @@ theorem NEnv.inner_memoOn (ne : NEnv) (kids : List Nat) : (ne.inner kids).base.m
 
 /-- the refinement statement for one fuel level -/
 def RefinesN (n : Nat) : Prop :=
-  ∀ (ne : NEnv) (m : Mode) (g : NG) (st : St), ne.base.memoOn = false →
+  ∀ (ne : NEnv) (m : Mode) (g : NGram) (st : St), ne.base.memoOn = false →
     Refines m st.errs st.ctx (runN n ne m g st) (pegN n ne g st.ss st.ctx)
 
 theorem RefinesN.at {n : Nat} (h : RefinesN n) {ne : NEnv} (hm : ne.base.memoOn = false)
-    {m' m : Mode} {base ctx v st1 v' s1 e1} (g : NG) (ho : OkRel m' base ctx v st1 v' s1 e1) :
+    {m' m : Mode} {base ctx v st1 v' s1 e1} (g : NGram) (ho : OkRel m' base ctx v st1 v' s1 e1) :
     ∃ new1, st1.errs = base ++ new1 ∧ EmsRel new1 e1 ∧
       Refines m (base ++ new1) ctx (runN n ne m g st1) (pegN n ne g s1 ctx) := by
   obtain ⟨new1, he, hr⟩ := ho.errs
@@ -194,7 +194,7 @@ theorem runN_refines_all : ∀ n, RefinesN n := by
                    nestedMerge_alt_isSome _ _ _ hthen.alt⟩
           · exact hthen
 
-theorem runN_refines (n : Nat) (ne : NEnv) (m : Mode) (g : NG) (st : St) (hm : ne.base.memoOn = false) :
+theorem runN_refines (n : Nat) (ne : NEnv) (m : Mode) (g : NGram) (st : St) (hm : ne.base.memoOn = false) :
     Refines m st.errs st.ctx (runN n ne m g st) (pegN n ne g st.ss st.ctx) :=
   runN_refines_all n ne m g st hm
 
